@@ -255,7 +255,7 @@ def job_struct(job):
     tag = "A=%s|P=%d" % ("x".join(map(str, A)), P)
     intervals = [None] + [(a, b) for a in range(n) for b in range(a, n + 1)]  # incl. empty intervals
     read_sets = []
-    for i in range(0, L, max(1, L // 4)):  # (two error-free read sets are added below; the total stays at six to seven)
+    for i in range(0, L, max(1, L // 6)):
         read_sets.append(([letters[i][1], letters[(i * 7 + 3 + seed) % L][1], letters[(i * 2 + 5) % L][1]], [2, 1, 3]))
     # error-free calls (probability exactly 1 / 0 on *listed* alleles): a haplotype the read rules out has likelihood exactly zero, which is not a gap
     def certain(hap, gap_at=None):
